@@ -5,7 +5,7 @@ returned on which branch and when the random number generator is asked:
 
     let x = f(a, &self.b, ..);        let x = f(..)?;        let x = f(..).expect("..");        let x = T::randomized();
     let ok = a == b;                  if a != b { return Err(E { .. }); }                       self.f.randomize_data();
-    Ok((S { .. }, *p.as_le_bytes()))  Ok(S { .. })            S { .. }                           f(..)
+    Ok((S { .. }, *p.as_le_bytes()))  Ok(S { .. })            S { .. }            f(..)          (*p.as_le_bytes(), c)
 
 `tools/gen_api.py` translates each function from the working tree on every run into an `ApiFn` (Gen/CodeApi.lean).  Arguments are ATOMS — a
 local or parameter, a field of `self`, `self` itself — seen through the conversions that are the identity on the model's values (`&`, `*`,
@@ -48,6 +48,7 @@ inductive Ret where
   | ok (r : Rhs)
   | err (r : Rhs)
   | okTup (r : Rhs) (a : Atom)
+  | tup (a b : Atom)                                      -- `(a, b)` as the tail
   | expect (r : Rhs) (msg : String)                       -- `f(..).expect("..")` as the tail
 deriving Repr, DecidableEq
 
@@ -132,6 +133,9 @@ def Ret.eval (P : Prims) (selfType : String) (s : St) : Ret → Option Res
   | .val r => (r.eval P selfType s).map (fun o => o.bind (fun (v, s') => .ok (v, s'.self, s'.draws)))
   | .ok r => (r.eval P selfType s).map (fun o => o.bind (fun (v, s') => .ok (.ok v, s'.self, s'.draws)))
   | .err r => (r.eval P selfType s).map (fun o => o.bind (fun (v, s') => .ok (.err v, s'.self, s'.draws)))
+  | .tup a b => match a.val s selfType, b.val s selfType with
+    | some x, some y => some (.ok (.tup x y, s.self, s.draws))
+    | _, _ => none
   | .okTup r a => match r.eval P selfType s with
     | none => none
     | some (.panic m) => some (.panic m)
